@@ -711,6 +711,44 @@ class C07(Check):
                         obs.append((nm, int(t), p, d, juncs[k]["D"], cur[0], cur[1], cur[2], gl))
                         keys.append("pdd-conditional-control-lag:" + attr if (k == 0 and fired) else "pdd-sim-point")
                         extra.append({"directed": "conditional-control", "attr": attr, "value": val, "glob": gl, "own": own, "fired": fired})
+        # (e) pause / edit the PDD attributes directly on the network (per junction or the global options) / continue, with the SAME
+        # simulator object or a new one: every point reported after the pause lies on the curve of the attributes the model has THEN
+        edits = [("junction", "required_pressure", 26.0), ("junction", "pressure_exponent", 1.0), ("junction", "minimum_pressure", 4.0),
+                 ("global", "required_pressure", 30.0), ("global", "pressure_exponent", 0.9), ("global", "minimum_pressure", 3.0)]
+        for ei, (where, attr, val) in enumerate(edits):
+            for same_sim in (True, False):
+                own = (0.0, 15.0, 0.7) if (ei + same_sim) % 2 else (None, None, None)
+                pmin, pnom, e = eff(own, gl)
+                juncs = [{"own": own, "D": 0.02, "elev": H - (pmin + 0.4 * (pnom - pmin))}, {"own": (None, None, None), "D": 0.01, "elev": H - 6.0}]
+                wn = self._star(wntr, gl, juncs, H, duration=2 * 3600)
+                try:
+                    sim = wntr.sim.WNTRSimulator(wn)
+                    r1 = sim.run_sim()
+                    if where == "junction":
+                        setattr(wn.get_node("J0"), attr, val)
+                    else:
+                        setattr(wn.options.hydraulic, attr, val)
+                    wn.options.time.duration = 5 * 3600
+                    r2 = (sim if same_sim else wntr.sim.WNTRSimulator(wn)).run_sim()
+                except Exception as ex:
+                    ctx.count("directed_sim_error:" + type(ex).__name__)
+                    continue
+                ctx.count("directed_sim_pause_edit:%s:%s" % (where, "same-simulator" if same_sim else "new-simulator"))
+                i = ("minimum_pressure", "required_pressure", "pressure_exponent").index(attr)
+                gl2 = tuple(val if (k == i and where == "global") else g for k, g in enumerate(gl))
+                own2 = tuple(val if (k == i and where == "junction") else o for k, o in enumerate(own))
+                for fi, res in enumerate((r1, r2)):
+                    for t in res.node["pressure"].index:
+                        if fi == 1 and t <= 2 * 3600:
+                            continue
+                        for k, nm in enumerate(("J0", "J1")):
+                            cur = eff(own2 if k == 0 else (None, None, None), gl2) if fi == 1 else eff(own if k == 0 else (None, None, None), gl)
+                            p = float(res.node["pressure"].loc[t, nm])
+                            d = float(res.node["demand"].loc[t, nm])
+                            reqs.append("pddcurve %s %s %s %s" % (fbits(cur[0]), fbits(cur[1]), fbits(cur[2]), fbits(p)))
+                            obs.append((nm, int(t), p, d, juncs[k]["D"], cur[0], cur[1], cur[2], gl2 if fi == 1 else gl))
+                            keys.append("pdd-edit-during-pause-ignored:%s:%s" % (where, attr) if fi == 1 else "pdd-sim-point")
+                            extra.append({"directed": "pause-edit-continue", "where": where, "attr": attr, "value": val, "same_sim": same_sim, "glob": gl, "own": own})
         # (d) a control sets a value the model build REFUSES (Preq <= smoothing delta, Preq <= Pmin): either run_sim raises, or
         # every later reported point lies on the curve of the REPORTED attributes -- for a refused value there is none
         for own in ((None, None, None), (0.0, 15.0, 0.7)):
